@@ -237,7 +237,7 @@ func clValueText(kind string) string {
 		style, class = kind[:k], kind[k+1:]
 	}
 	text := map[string]string{"true": "true", "false": "false", "null": "null", "tilde": "~", "int": "42", "float": "1.5",
-		"hex": "0x1F", "text": "abc", "empty": "", "TRUE": "TRUE"}[class]
+		"hex": "0x1F", "text": "abc", "empty": "", "TRUE": "TRUE", "tchar": "t", "fchar": "F"}[class]
 	switch style {
 	case "single":
 		return "'" + text + "'"
